@@ -300,7 +300,7 @@ META["C01"] = {
 
 META["C15"] = {
     "LEVEL": "exploration",
-    "TIERS": {"quick": 64, "thorough": 2500},
+    "TIERS": {"quick": 48, "thorough": 2500},
     "WALLCAP": {"quick": 480, "thorough": 5400},
     "RULE": ("One evaluation = one seeded scenario. schedule: the same solve executed Python-stepped (oracle), lax-eager, jitted and "
              "inside a vmap batch of 2-5 members whose position, tolerances (1e-9..1e-2), final times and initial values the seed "
